@@ -318,7 +318,6 @@ fn classify(kind: &str, labels: &[String], k: usize) -> &'static str {
         "process_proposal_admin" if has("queue_proposal") => "auto-commit-result-lost",
         "create_group" if has("save_group") => "create-group-not-atomic",
         "process_welcome" if has("save_processed_welcome") && !has("save_welcome") => "welcome-processing-not-atomic",
-        "accept_welcome" if has("save_welcome") && !has("save_group") => "welcome-accept-not-atomic",
         _ => "",
     }
 }
@@ -423,8 +422,10 @@ fn recover(w: &mut W, st: &mut St, sc: &Scenario) -> String {
             }
         }
         Step::AcceptWelcome(c) => {
-            let pend = w.clients[*c].mdk.get_pending_welcomes(None).unwrap_or_default();
-            match pend.into_iter().next() { Some(wl) => { st.welcomes.insert(*c, wl); format!("redo:{}", exec(w, st, &sc.call)) } None => "effect-present".into() }
+            // "processing the interrupted event again": the welcome event is processed again (process_welcome returns the stored
+            // welcome, whatever its state) and accepted again
+            let r0 = exec(w, st, &Step::ProcessWelcome(*c));
+            format!("reprocess:{r0} redo:{}", exec(w, st, &sc.call))
         }
         Step::Rollback(c, name) => {
             let listed = w.clients[*c].mdk.provider.storage().list_group_snapshots(&w.gid).map(|v| v.iter().any(|(n, _)| n == name)).unwrap_or(false);
